@@ -152,6 +152,9 @@ var (
 	KeysDerived = set("scheme", "query", "fragment", "opaque", "special", "ipv4", "ipv6", "dport", "hrefnf")
 )
 
+// KnownKey reports whether k is a projection key.
+func KnownKey(k string) bool { return KeysStd[k] || KeysDerived[k] }
+
 func set(ks ...string) map[string]bool {
 	m := map[string]bool{}
 	for _, k := range ks {
